@@ -323,6 +323,13 @@ def fault(detector, _id: str = "", level=0, level2=0, plan=None) -> None:
             return
         if plan.get("level2") is not None and level2 != plan["level2"]:
             return
+    if plan.get("model_seed") is not None:
+        # the model fails inside its own seeded region (what every stochastic model with a `seed` argument does)
+        from pyxel.util import set_random_seed
+
+        with set_random_seed(plan["model_seed"]):
+            np.random.random()
+            raise make_fault(plan["exc"], plan["msg"], plan.get("note"))
     raise make_fault(plan["exc"], plan["msg"], plan.get("note"))
 
 
